@@ -60,6 +60,10 @@ type mField struct {
 	Rows    map[uint64]mSet // standard view: row -> columns
 	TBits   map[mTBit]struct{}
 	Vals    map[uint64]int64
+	Depth   uint // int fields: bits needed by the largest magnitude ever written (the field's bit depth; Base is 0)
+	// ShardDepth is the same per shard: in a cluster every node grows its own bit
+	// depth from the values it receives, so a node's depth is >= that of each shard it owns.
+	ShardDepth map[uint64]uint
 }
 
 type mIndex struct {
@@ -200,7 +204,53 @@ func (m *mIndex) setValue(f *mField, c uint64, v int64, exist bool) (changed boo
 	}
 	old, ok := f.Vals[c]
 	f.Vals[c] = v
+	if d := mBitLen(v); d > f.Depth {
+		f.Depth = d
+	}
+	if f.ShardDepth == nil {
+		f.ShardDepth = map[uint64]uint{}
+	}
+	if d := mBitLen(v); d > f.ShardDepth[c/mSW] {
+		f.ShardDepth[c/mSW] = d
+	}
 	return !ok || old != v
+}
+
+// mBitLen returns the number of bits needed for |v|.
+func mBitLen(v int64) uint {
+	u := uint64(v)
+	if v < 0 {
+		u = uint64(-v)
+	}
+	n := uint(0)
+	for u > 0 {
+		n++
+		u >>= 1
+	}
+	return n
+}
+
+// beyondDepth reports whether predicate p lies at or beyond the edge of the
+// value range representable at the field's current bit depth (|p| >= 2^depth-1).
+func (f *mField) beyondDepth(p int64) bool { return mBeyond(f.Depth, p) }
+
+func mBeyond(depth uint, p int64) bool {
+	if depth >= 63 {
+		return false
+	}
+	lim := int64(1)<<depth - 1
+	return p >= lim || p <= -lim
+}
+
+// minShardDepth returns the smallest per-shard depth among shards holding values.
+func (f *mField) minShardDepth() uint {
+	d, first := f.Depth, true
+	for _, sd := range f.ShardDepth {
+		if first || sd < d {
+			d, first = sd, false
+		}
+	}
+	return d
 }
 
 func (m *mIndex) clearValue(f *mField, c uint64) {
@@ -543,6 +593,34 @@ func (m *mIndex) shiftCarry(n *qNode) bool {
 		}
 		for c := range s {
 			if c%mSW+uint64(x.N) >= mSW {
+				found = true
+				return
+			}
+		}
+	})
+	return found
+}
+
+// shiftContainerCarry reports whether the expression contains a Shift over a
+// COMPUTED operand (anything but a plain stored row) that holds a column
+// within n of the upper edge of its 65536-wide container. Input predicate for
+// failure signatures (computed bitmaps, and rows written by Store from computed
+// bitmaps, may carry empty containers).
+func (m *mIndex) shiftContainerCarry(n *qNode, storedRow func(field string) bool) bool {
+	found := false
+	n.walk(func(x *qNode) {
+		if x.Kind != "shift" || found {
+			return
+		}
+		if k := x.Kids[0]; k.Kind == "rowtime" || (k.Kind == "row" && !(storedRow != nil && storedRow(k.Field))) {
+			return // a stored row that no Store() wrote has no empty containers
+		}
+		s, err := m.eval(x.Kids[0])
+		if err != nil {
+			return
+		}
+		for c := range s {
+			if c%65536+uint64(x.N) >= 65536 {
 				found = true
 				return
 			}
